@@ -35,12 +35,25 @@ THEOREMS = [
     "MysticVerif.C13.chain_canon",
     "MysticVerif.C13.bounds_in_box",
     "MysticVerif.C13.bounds_identity_inside",
+    "MysticVerif.C13.compose_eq_chain_order",
+    "MysticVerif.C13.compose_opt_eq",
+    "MysticVerif.C13.compose_independent",
+    "MysticVerif.C13.compose_frame",
+    "MysticVerif.C13.compose_feeding_partial",
+    "MysticVerif.C13.compose_feeding_order_matters",
+    "MysticVerif.C13.fixed_point_margin",
+    "MysticVerif.C13.member_idem",
+    "MysticVerif.C13.join_and_all_hold",
+    "MysticVerif.C13.join_or_some_holds",
 ]
 
 NAMES = ["a", "b", "c", "d", "spam", "eggs", "foo", "bar", "u", "v", "w", "p", "q", "alpha", "beta", "zed"]
 CMPS = ["=", "==", "<=", ">=", "<", ">", "!="]
 KEY_BAND = "solver/identity/strict-tolerance-band"
 KEY_OVF = "solver/rhs-overflows-to-inf/nan-result"
+WORDS = ["spam", "eggs", "foo", "bar", "alpha", "beta", "zed"]       # names that are no substring of a function name
+SHADOW = [("K0", "K1"), ("K0", "K1"), ("e", "tau"), ("pi", "gamma"), ("K0", "e"), ("euler_gamma", "K1"), ("inf", "K0")]
+COUPLERS = ["inner", "outer", "inner_proxy", "outer_proxy"]
 
 
 # ------------------------------------------------------------------ generators
@@ -75,6 +88,54 @@ def gen_term(rng, avail, depth, regime):
     else:
         b = gen_term(rng, avail, depth - 1, regime)
     return (op, a, b)
+
+
+def gen_rich(rng, avail, depth, consts):
+    """the wider expression language of user texts (small regime only): ** with small integer exponents, abs, min/max
+    (2 or 3 arguments), the numeric functions of the generated namespace, names bound through locals="""
+    k = rng.random()
+    if depth == 0 or k < 0.2:
+        if consts and rng.random() < 0.3:
+            return ("n", rng.choice(sorted(consts)))
+        if avail and rng.random() < 0.65:
+            return ("v", rng.choice(avail))
+        return ("n", gen_numeral(rng, "small"))
+    sub = lambda: gen_rich(rng, avail, depth - 1, consts)
+    if k < 0.32:
+        return ("pow", sub(), ("n", rng.choice(["2", "2", "3", "2", "4", "0", "1", "-1", "-2"])))
+    if k < 0.44:
+        return ("abs", sub())
+    if k < 0.58:
+        args = [sub() for _ in range(rng.choice([2, 2, 3]))]
+        if rng.random() < 0.3:
+            args[1] = args[0]                       # ties: python keeps the first extremal argument
+        return (rng.choice(["max", "min"]),) + tuple(args)
+    if k < 0.74:
+        f = rng.choice(["sqrt", "sqrt", "floor", "ceil", "sqrt", "exp", "log", "sin", "cos"])
+        a = sub()
+        if f == "sqrt" and rng.random() < 0.7:
+            a = ("abs", a)
+        if f == "log":
+            a = ("+", ("abs", a), ("n", "1."))
+        if f == "exp":
+            a = ("neg", ("abs", a)) if rng.random() < 0.7 else a
+        return (f, a)
+    op = rng.choice(["+", "-", "*", "+", "-", "/"])
+    a = sub()
+    if op == "/":
+        b = ("v", rng.choice(avail)) if (avail and rng.random() < 0.5) else ("n", rng.choice(["2", "4.", "-3", ".5", "7", "0.1"]))
+    else:
+        b = sub()
+    return (op, a, b)
+
+
+def gen_measure(rng, avail):
+    """sum / mean / spread over a list of variables (exactness regime: the point is dyadic)"""
+    vs = [("v", j) for j in (rng.sample(avail, min(len(avail), rng.choice([2, 3, 3, 4]))) if len(avail) >= 2 else avail * 2)]
+    t = (rng.choice(["sum", "mean", "spread"]),) + tuple(vs)
+    if rng.random() < 0.5:
+        t = (rng.choice(["+", "-", "*"]), t, rng.choice([("n", "2."), ("n", ".5"), ("v", rng.choice(avail))]))
+    return t
 
 
 def gen_value(rng, regime):
@@ -145,6 +206,18 @@ def gen_case(rng):
         n = 2
     scheme = gen_scheme(rng, n)
     locs = gen_locals(rng, regime)
+    # the wider expression language (gap: "validated only on + - * /"): a separate share of the small-regime cases
+    rich = None
+    if regime == "small" and kind in ("rel", "chain", "feed") and rng.random() < 0.45:
+        rich = rng.choices(["funcs", "measure"], [80, 20])[0] if kind != "feed" else "funcs"
+        if scheme[0] == "names":
+            scheme = ("names", rng.sample(WORDS, n), scheme[2]) if n <= len(WORDS) else ("base", "x", True)
+    consts = {}
+    if rich == "funcs" and scheme[0] == "base" and rng.random() < 0.4:
+        # names bound through locals=; most of them shadow a math / numpy name the generated namespace imports
+        n0, n1 = rng.choice(SHADOW)
+        consts = {n0: rng.choice([2.0, -1.5, 0.25, 3.0]), n1: rng.uniform(-5, 5)}
+        locs = dict(locs or {}); locs.update(consts)
     if kind == "neqmix" and locs is not None and (locs.get("tol", 0) > 1e-3 or locs.get("rel", 0) > 1e-3):
         locs = {"tol": 1e-9, "rel": 1e-12}        # the tolerance must stay far below the width of the box (0.25)
     idx = list(range(n))
@@ -161,6 +234,10 @@ def gen_case(rng):
         if kind == "selfref":
             avail = [i] + avail[:2]
         term = gen_term(rng, avail, rng.choice([0, 1, 1, 2]), regime)
+        if rich == "funcs":
+            term = gen_rich(rng, avail, rng.choice([1, 2, 2, 3]), consts)
+        elif rich == "measure" and avail:
+            term = gen_measure(rng, avail)
         if kind == "selfref" and i not in T.term_vars(term):
             term = ("+", term, ("v", i))
         rels.append((i, rng.choice(CMPS), term))
@@ -170,7 +247,13 @@ def gen_case(rng):
         free = [j for j in idx if j not in lhs]
         for q, i in enumerate(lhs):
             avail = free if kind == "chain" else free + [j for j in lhs if j != i]
-            rels.append((i, rng.choice(CMPS), gen_term(rng, avail, rng.choice([0, 1, 2]), regime)))
+            if rich == "funcs":
+                term = gen_rich(rng, avail, rng.choice([1, 2, 2]), consts)
+            elif rich == "measure" and avail:
+                term = gen_measure(rng, avail)
+            else:
+                term = gen_term(rng, avail, rng.choice([0, 1, 2]), regime)
+            rels.append((i, rng.choice(CMPS), term))
     else:   # neqmix: bounds and != on the same variable (constants), plus an unrelated line
         i = rng.choice(pref)
         lo = rng.randint(-16, 16) / 4.0
@@ -195,10 +278,25 @@ def gen_case(rng):
                 return ("n", t[1] + ".") if t[1].lstrip("-").isdigit() else t
             if t[0] == "v":
                 return t
+            if t[0] == "pow":
+                return (t[0], fl_(t[1]), t[2])
             return (t[0],) + tuple(fl_(u) for u in t[1:])
         rels = [(i, c, fl_(t)) for (i, c, t) in rels]
     x = [gen_value(rng, regime) for _ in range(n)]
-    return {"kind": kind, "regime": regime, "n": n, "scheme": scheme, "locals": locs, "rels": rels, "x": x}
+    if rich == "measure":
+        x = [rng.randint(-64, 64) / 8.0 for _ in range(n)]          # exactness regime: every partial sum is exact
+    # composition mode of generate_constraint: ctype= (one coupler / one per solver), join= (constraints.and_/or_)
+    ctype = None; join = None
+    if kind != "selfref":
+        m = rng.random()
+        if m < 0.22:
+            ctype = rng.choice(COUPLERS) if rng.random() < 0.4 else [rng.choice(COUPLERS) for _ in rels]
+        elif m < 0.36:
+            join = "and_"; ctype = rng.choice([None, None, "outer", "inner"])
+        elif m < 0.46:
+            join = "or_"; ctype = rng.choice([None, None, "outer"])
+    return {"kind": kind, "regime": regime, "n": n, "scheme": scheme, "locals": locs, "rels": rels, "x": x,
+            "rich": rich, "consts": consts, "ctype": ctype, "join": join}
 
 
 def finalize_point(rng, case):
@@ -207,8 +305,10 @@ def finalize_point(rng, case):
     x = case["x"]
     for (i, cmp, term) in case["rels"]:
         try:
-            r = float(T.py_eval(term, x))
-        except (ZeroDivisionError, OverflowError):
+            with warnings.catch_warnings():
+                warnings.simplefilter("ignore")
+                r = float(T.py_eval(term, x, case.get("consts")))
+        except (ZeroDivisionError, OverflowError, TypeError, ValueError):
             continue
         if rng.random() < 0.75:
             x[i] = place(rng, r, tolf(r, tol, rel), case["regime"])
@@ -239,12 +339,32 @@ def run_impl(case):
     try:
         solvers = S.generate_solvers(text, locals=locs, **kw)
         obs["docs"] = [s.__doc__ for s in solvers]
-        cf = S.generate_constraint(solvers)
+        from mystic import coupler as CP, constraints as CN
+        ct = case.get("ctype")
+        ctype = None if ct is None else (getattr(CP, ct) if isinstance(ct, str) else [getattr(CP, c) for c in ct])
+        join = getattr(CN, case["join"]) if case.get("join") else None
+        if ctype is None and join is None:
+            cf = S.generate_constraint(solvers)
+        else:
+            cf = S.generate_constraint(solvers, ctype=ctype, join=join)
     except Exception as exc:
         obs["gen_raises"] = "%s: %s" % (type(exc).__name__, exc)
         return obs
     xin = list(case["x"])
+    import random as _rnd
+    drew = [0]
+    _ri, _rr = _rnd.randint, _rnd.random
+
+    def _randint(a, b):
+        drew[0] += 1
+        return _ri(a, b)
+
+    def _random():
+        drew[0] += 1
+        return _rr()
     try:
+        if join is not None:
+            _rnd.randint, _rnd.random = _randint, _random        # constraints.and_/or_ do `import random as rnd` per call
         with warnings.catch_warnings():
             warnings.simplefilter("ignore")
             y = cf(xin)
@@ -252,8 +372,25 @@ def run_impl(case):
         obs["same_object"] = y is xin
     except ZeroDivisionError:
         obs["raises"] = "zerodiv"
+    except OverflowError:
+        obs["raises"] = "overflow"                      # python's float ** int raises where IEEE gives inf
     except Exception as exc:
         obs["raises"] = "%s: %s" % (type(exc).__name__, exc)
+    finally:
+        _rnd.randint, _rnd.random = _ri, _rr
+    obs["drew"] = drew[0]
+    if "y" in obs:
+        # which solvers leave the output unchanged (fixed-point monitor: such a solver's relation must hold there)
+        fx = []
+        for sv in solvers:
+            try:
+                with warnings.catch_warnings():
+                    warnings.simplefilter("ignore")
+                    z = sv(list(obs["y"]))
+                fx.append(all(num_eq(float(a), b) for a, b in zip(z, obs["y"])))
+            except Exception:
+                fx.append(None)
+        obs["fixed"] = fx
     # a function that was generated earlier must keep enforcing ITS relation after other relations are compiled:
     # compile a decoy that binds the same names (tol, rel, and every name of the case's locals) to other values
     if "y" in obs:
@@ -264,7 +401,13 @@ def run_impl(case):
             with warnings.catch_warnings():
                 warnings.simplefilter("ignore")
                 S.generate_constraint(S.generate_solvers("x0 > x1 + 2", locals=decoy, nvars=max(2, case["n"])))([0.0] * max(2, case["n"]))
-                y2 = cf(list(case["x"]))
+                # .. and another text with other variable names / another nvars, using the same function names
+                S.generate_constraint(S.generate_solvers("q1 = abs(q0) + sqrt(4.)\nq0 <= max(q2, 1.)", variables="q",
+                                                         nvars=case["n"] + 3, locals={"tol": 0.25}))([1.0] * (case["n"] + 3))
+                if case.get("join") is None:
+                    y2 = cf(list(case["x"]))
+                else:
+                    y2 = obs["y"]                          # the combinators may draw random numbers: not repeatable
             obs["y_again"] = [float(v) for v in y2]
         except Exception as exc:
             obs["y_again"] = "%s: %s" % (type(exc).__name__, exc)
@@ -294,9 +437,9 @@ def expected_order(rels):
 
 def build_request(case, obs):
     """align emitted statements with the text's relations; returns (line, info) or (None, reason)"""
-    rels = case["rels"]
+    rels = case["rels"]; consts = case.get("consts") or {}
     try:
-        codes = [T.parse_assign(d) for d in obs["docs"]]
+        codes = [T.parse_assign(d, consts) for d in obs["docs"]]
     except T.Untranslatable as exc:
         return None, "emitted source outside the modelled language: %s" % exc
     if len(codes) != len(rels):
@@ -313,10 +456,28 @@ def build_request(case, obs):
     rs = []
     for k in order:
         i, cmp, term = rels[k]
-        rs.append("(%d %s %s)" % (i, T.CMP_SYM[cmp], T.sexp(T.parse_expr(T.print_expr(term, T.xj)))))
+        rs.append("(%d %s %s)" % (i, T.CMP_SYM[cmp], T.sexp(T.parse_expr(T.print_expr(term, T.xj), consts))))
     cs = ["(%d %s)" % (c[0], T.sexp(c[1])) for c in codes]
-    line = "C13 chain (tol %s) (rel %s) (x %s) (rels (%s)) (codes (%s))" % (f2b(tol), f2b(rel), fl(case["x"]), " ".join(rs), " ".join(cs))
-    return line, {"order": order, "expected_order": expected_order(rels)}
+    body = "(tol %s) (rel %s) (x %s) (rels (%s)) (codes (%s))" % (f2b(tol), f2b(rel), fl(case["x"]), " ".join(rs), " ".join(cs))
+    info = {"order": order, "expected_order": expected_order(rels), "inexact": any(T.inexact(c[1]) for c in codes)}
+    ct = case.get("ctype"); join = case.get("join")
+    if join:
+        info["mode"] = join
+        return "C13 gc (mode %s) %s" % (join.rstrip("_"), body), info
+    if ct is not None:
+        names = [ct] * len(codes) if isinstance(ct, str) else list(ct)
+        if len(names) != len(codes):
+            return None, "ctype list does not match the solvers"
+        info["mode"] = "ctype"
+        # the order in which the composition must run the statements (harness' own reading of the couplers):
+        # an inner level runs its solver before everything wrapped so far, an outer level after it
+        run = []
+        for k, nm in enumerate(names):
+            run = [k] + run if nm.startswith("inner") else run + [k]
+        info["run_order"] = run
+        return "C13 gc (mode ctype) (ctypes (%s)) %s" % (" ".join(nm.split("_")[0] for nm in names), body), info
+    info["mode"] = "default"
+    return "C13 chain " + body, info
 
 
 # ------------------------------------------------------------------ monitor (independent of the model)
